@@ -442,6 +442,20 @@ var opTable = map[string]opSpec{
 	"Dot.Label": {[]string{"g"}, 0, false, func(o []*obj, p []float64) []uint64 {
 		return strBits(graphout.Dot{Name: "g\"x", Label: func(n int) string { return fmt.Sprint("n", n, "{") }}.Sprint(o[0].g))
 	}},
+	// attribute callbacks hand out prefixes of the caller's own table: the rest of the table stays the caller's
+	"Dot.Attrs": {[]string{"g"}, 0, false, func(o []*obj, p []float64) []uint64 {
+		table := []graphout.DotAttr{{Name: "color", Val: "red"}, {Name: "shape", Val: "box"}, {Name: "style", Val: graphout.DotLiteral("bold")}, {Name: "w", Val: 3}}
+		saved := append([]graphout.DotAttr(nil), table...)
+		d := graphout.Dot{NodeAttrs: func(n int) []graphout.DotAttr { return table[:n%4] },
+			EdgeAttrs: func(n, e int) []graphout.DotAttr { return table[1 : 1+(n+e)%3] }}
+		out := strBits(d.Sprint(o[0].g))
+		for i := range table {
+			if table[i] != saved[i] {
+				panic("the library wrote past its contract: it changed an attribute list returned by the caller's callback")
+			}
+		}
+		return out
+	}},
 	"SubgraphKeep": {[]string{"g"}, 0, false, func(o []*obj, p []float64) []uint64 {
 		s := graph.SubgraphKeep(o[0].g, []int{0, len(o[0].g) - 1}, nil)
 		var r []uint64
